@@ -435,7 +435,7 @@ def unmarshal_header_frame_contract():
                                      'properties': props_c.default_like(c.st)}, provenance='fresh')
 
     return Contract(FRM + '_unmarshal_header_frame', [('frame_data', insts())], cases=[
-        Case('content-header', when=good, returns=lambda c: expected_header(c, c.frame_data)),
+        Case('content-header', when=good, returns=lambda c: expected_header(c, c.frame_data), fresh_result=True),
         Case('anything-else', when=lambda c: not good(c), post=post_bad, havoc=havoc_bad, may_raise=(UE,), garbles=True),
     ], bounded=False, complete=True,
         doc='C02/C05/C09: the header the grammar assigns, or UnmarshalingException')
